@@ -70,6 +70,9 @@ type JobResult struct {
 	Queries   int
 	Elapsed   time.Duration
 	Truncated bool
+	// CutByBudget: the run's exploration budget ended while the job was being explored;
+	// unless it already holds a violation it is reported as not run.
+	CutByBudget bool
 	AbortMsgs []string
 	Labels    map[string]int // assertion label -> times reached
 }
@@ -207,6 +210,11 @@ func (w *Worker) exploreOnce(job *Job, wantFixtures bool) *JobResult {
 		}
 		if res.NPaths >= maxPaths || (job.TimeLimit > 0 && time.Since(t0) > job.TimeLimit) {
 			res.Truncated = true
+			break
+		}
+		if !ExploreDeadline.IsZero() && time.Now().After(ExploreDeadline.Add(30*time.Second)) {
+			// the run's time budget (plus a grace period) ended while this job was in flight
+			res.CutByBudget = true
 			break
 		}
 	}
